@@ -4,7 +4,8 @@ Proof: coq/Props/C40_props.v over coq/Model/C40.v (+ coq/Lib/Glob.v, coq/Gen/C40
 Tie: (a) gen/c40.py regenerates the token tables from paramiko/config.py (TOKENS_BY_CONFIG_KEY, the
 order and source text of the `replacements` dict of _tokenize) on every run; (b) differential run of
 the model's own definitions (vm_compute inside Coq) against SSHConfig.from_text(...).lookup(host) and
-get_hostnames() on generated configs rendered to text from a structured form.
+get_hostnames() on generated configs rendered to text from a structured form; the parsed
+SSHConfig._config is compared with the structured form (parse round trip) and with the model's block_config.
 Search oracle: the property stated directly — an independent brute-force "first applicable block"
 computation over the structured config (own glob matcher via `re`, own simultaneous token
 substitution), IdentityFile duplicate check, HostName default, get_hostnames = every Host pattern.
@@ -21,14 +22,16 @@ LEVEL_TEXT = ("Machine-checked proof (Coq, closed under the global context) over
               "matcher proved equivalent to its declarative meaning); for Host blocks and option-independent Match "
               "criteria every non-accumulating key has the value of the first applicable block in file order that "
               "sets it, for arbitrary criteria the same with the options obtained so far (both passes "
-              "characterised); IdentityFile accumulates in order without duplicates; HostName defaults to the "
+              "characterised in closed form over the config: Match host/user only see the HostName/User values of "
+              "the earlier applying blocks); IdentityFile accumulates in order without duplicates; HostName defaults to the "
               "looked-up name; allowed %-tokens and ~ are substituted segment by segment; get_hostnames reports "
               "exactly the Host patterns for any config, Match blocks included.  The model is tied to "
               "paramiko/config.py by regenerated token tables and a differential run against the real parser and "
               "lookup on generated configs every run.")
 LEVEL_NOTE = ("Proof on a stated fragment: the text parser (regex line split, shlex, key lower-casing) is not modelled "
-              "— configs are generated in structured form, rendered to text and fed to the real parser "
-              "(correspondence only); patterns without '[' classes, ASCII; Match criteria all/canonical/final/host/"
+              "— configs are generated in structured form, rendered to text and fed to the real parser; every run "
+              "compares the parsed SSHConfig._config (block headers, Match criteria, per-block dictionaries) with "
+              "the structured form and with the model's block_config (parse round trip, testing not proof); patterns without '[' classes, ASCII; Match criteria all/canonical/final/host/"
               "originalhost/user/localuser (no exec); no canonicalization / AddressFamily keys; fnmatch, "
               "str.replace/split, getpass/socket/expanduser (pinned) and sha1 (toy digest installed in the harness "
               "process) are modelled by small Gallina re-implementations validated by the differential run. "
@@ -286,7 +289,11 @@ def enc_str(s):
 
 
 def canon_options(d):
-    out = [0]
+    return [0] + canon_dict(d)
+
+
+def canon_dict(d):
+    out = []
     for k in sorted(d):
         v = d[k]
         out += enc_str(k)
@@ -514,6 +521,52 @@ def check_case(ctx, cfg, text, host, envt):
     return got
 
 
+def expected_parse(cfg):
+    """What SSHConfig.parse must build from the text rendered for `cfg` (structured form -> _config)."""
+    def block_dict(body):
+        d = {}
+        for k, v in body:
+            if k == "proxycommand" and v.lower() == "none":
+                d[k] = None                         # stored as None, replacing an earlier value of the block
+                continue
+            v = unquote(v)
+            if k in LIST_KEYS:
+                d.setdefault(k, []).append(v)
+            elif k not in d:
+                d[k] = v
+        return d
+    out = [{"host": ["*"], "config": block_dict(cfg["global"])}]
+    for b in cfg["blocks"]:
+        if "host" in b:
+            out.append({"host": list(b["host"]), "config": block_dict(b["body"])})
+        else:
+            out.append({"matches": [{"type": t, "param": (None if t in ("all", "canonical", "final") else param),
+                                     "negate": bool(neg)} for t, neg, param in b["match"]],
+                        "config": block_dict(b["body"])})
+    return out
+
+
+def check_parse(ctx, cfg, text):
+    """Structured form -> text -> real parser -> compare the block structure (headers and per-block
+    dictionaries) with the structured form.  Returns the parsed _config or None."""
+    from paramiko.config import SSHConfig
+    case = {"text": text, "config": cfg}
+    want = expected_parse(cfg)
+    try:
+        got = SSHConfig.from_text(text)._config
+    except Exception as e:  # noqa
+        ctx.fail("parse-raises", "SSHConfig.parse raised %s on a well-formed config" % type(e).__name__, case=case,
+                 expected=want, observed=repr(e))
+        return None
+    got = [dict(x) for x in got]
+    if got != want:
+        i = next((j for j in range(min(len(got), len(want))) if got[j] != want[j]), min(len(got), len(want)))
+        ctx.fail("parser-structure", "the parsed block structure differs from the structured config that was rendered "
+                 "(block headers, key folding, separators, quoting, repeated keys)", case=dict(case, block=i),
+                 expected=want[i] if i < len(want) else None, observed=got[i] if i < len(got) else None)
+    return got
+
+
 def check_hostnames(ctx, cfg, text):
     case = {"text": text, "config": cfg}
     want = all_host_patterns(cfg)
@@ -566,7 +619,8 @@ def run(ctx):
                 "ProxyJump, quoted values, 'ProxyCommand none', Match all/canonical/final/host/originalhost/user/"
                 "localuser with negation) rendered to text with random layout/case/separators/comments and parsed "
                 "by the real SSHConfig; 60% of the configs use option-independent criteria only (full oracle); "
-                "random hostnames; 4 pinned environments; a case is non-trivial when distinct and at least one "
+                "every rendered config is also compared block by block with the parser's _config (parse round trip); "
+                "8 malformed texts must raise ConfigParseError; random hostnames; 4 pinned environments; a case is non-trivial when distinct and at least one "
                 "block other than the implicit global one exists")
     ctx.trusted += ["model coq/Model/C40.v is hand-written; tied to paramiko/config.py by coq/Gen/C40_gen.v (token "
                     "tables regenerated from the source each run, fail-closed) and by this differential run "
@@ -581,6 +635,8 @@ def run(ctx):
     n_cfg = 2000 if ctx.thorough else 200
     cfg_cases = []          # (coq text, canon, info): one per config = get_hostnames + one lookup per host
     with pinned():
+        import fnmatch
+        from paramiko.config import SSHConfig
         todo = [(cfg, hosts, True) for cfg, hosts in DIRECTED]
         for i in range(n_cfg):
             static = rng.random() < 0.6
@@ -590,6 +646,8 @@ def run(ctx):
             text = render(cfg, rng)
             envt = ENVS[idx % len(ENVS)] if directed else rng.choice(ENVS)
             stat = is_static(cfg)
+            parsed = check_parse(ctx, cfg, text)
+            ctx.count(("parse", text), nontrivial=bool(cfg["blocks"]) or bool(cfg["global"]), kind="parse-roundtrip")
             hn = check_hostnames(ctx, cfg, text)
             ctx.count(("hostnames", text), nontrivial=bool(cfg["blocks"]),
                       kind="get_hostnames-with-match" if any("match" in b for b in cfg["blocks"]) else "get_hostnames")
@@ -599,7 +657,16 @@ def run(ctx):
                 for s in sorted(hn):
                     canon += enc_str(s)
             canon = [len(canon)] + canon
-            impl = {"get_hostnames": sorted(hn) if hn is not None else None}
+            pre = []
+            if parsed is None or len(parsed) != len(cfg["blocks"]) + 1:
+                pre = [-3]
+            else:
+                for entry in parsed:
+                    r = canon_dict(entry["config"])
+                    pre += [len(r)] + r
+            canon = pre + canon
+            impl = {"get_hostnames": sorted(hn) if hn is not None else None,
+                    "_config": parsed}
             for host in hosts:
                 got = check_case(ctx, cfg, text, host, envt)
                 ctx.count(("lookup", text, host, envt), nontrivial=bool(cfg["blocks"]),
@@ -612,9 +679,22 @@ def run(ctx):
             cfg_cases.append(("((%s,%s,%s,%s), %s, %s, [%s])" % (
                 zs(envt[0]), zs(envt[1]), zs(envt[2]), zs(envt[3]), coq_body(cfg["global"]), coq_blocks(cfg),
                 ";".join(zs(h) for h in hosts)), canon, {"text": text, "hosts": hosts, "env": list(envt), "impl": impl}))
+        # malformed stream: the parser must refuse these with ConfigParseError (never another exception)
+        from paramiko.ssh_exception import ConfigParseError
+        for bad_text in ["Host a\n  JustAKey\n", "Match all host x\n  Port 1\n", "Match host\n  Port 1\n",
+                         "Match all canonical\n", 'Host "unterminated\n  Port 1\n', "Host a\n  =\n",
+                         "Match user\n", "Match originalhost a all\n"]:
+            ctx.count(("malformed", bad_text), kind="parse-malformed")
+            try:
+                SSHConfig.from_text(bad_text)
+                ctx.fail("parse-malformed-accepted", "a malformed config is accepted", case={"text": bad_text},
+                         expected="ConfigParseError", observed="parsed")
+            except ConfigParseError:
+                pass
+            except Exception as e:  # noqa
+                ctx.fail("parse-malformed-" + type(e).__name__, "a malformed config raises %s, not ConfigParseError"
+                         % type(e).__name__, case={"text": bad_text}, expected="ConfigParseError", observed=repr(e))
         # fnmatch vs the glob matcher, _pattern_matches vs the model
-        import fnmatch
-        from paramiko.config import SSHConfig
         sc = SSHConfig()
         pm_cases = []
         for _ in range(4000 if ctx.thorough else 500):
@@ -668,5 +748,7 @@ def replay(ctx, rep):
         ctx.count(("replay2", case["text"]))
         if "host" in case:
             check_case(ctx, cfg, case["text"], case["host"], tuple(case["env"]))
+        elif rep.get("key", "").startswith("pars"):
+            check_parse(ctx, cfg, case["text"])
         else:
             check_hostnames(ctx, cfg, case["text"])
